@@ -399,11 +399,11 @@ def run(ctx):
     three = list(histories(ALPHA_3, 3, L2))
     grid = [(s_, a_) for s_ in (0, 1, 2, -1) for a_ in (1, 0)]
     quick_grid = [(0, 1), (1, 1), (1, 0), (-1, 1), (-1, 0)]
-    for size, ar in (quick_grid if ctx.tier == "quick" else [(0, 1), (1, 1), (1, 0), (2, 1), (2, 0), (-1, 1), (-1, 0)]):
+    for size, ar in (quick_grid if ctx.tier == "quick" else [(0, 1), (1, 1), (1, 0), (2, 1), (-1, 1), (-1, 0)]):
         if True:
             for h in full:
                 cases.append(("dict", ar, size, h))
-    for size, ar in ((2, 0),) if ctx.tier == "quick" else ((1, 1), (-1, 1), (2, 0), (1, 0)):
+    for size, ar in ((2, 0),) if ctx.tier == "quick" else ((1, 1), (2, 0)):
         for h in red:
             cases.append(("dict", ar, size, h))
     for size, ar in ((2, 1), (2, 0)) if ctx.tier == "quick" else ((1, 1), (1, 0), (2, 1), (2, 0)):
@@ -467,6 +467,7 @@ def run(ctx):
         shutil.rmtree(fsdir + "2", ignore_errors=True)
 
     run_race(ctx, jinja2)
+    run_entry(ctx, jinja2)
     for size in (0, 1, 2, -1):
         for ar in (0, 1):
             ctx.case()
@@ -476,6 +477,106 @@ def run(ctx):
                 ctx.reject({"probe": "swap", "cache_size": size, "auto_reload": ar}, w)
             else:
                 ctx.validated()
+
+
+# ------------------------------------------------------------------------------------------- other entry points into the cache
+ENTRY_TPL = {
+    "n1": "n1v{v}", "base": "B({{% block b %}}{{% endblock %}})v{v}", "mac": "{{% macro f() %}}Mv{v}{{% endmacro %}}", "dir/b": "dirBv{v}",
+    "zz": "ZZv{v}", "b": "rootB",
+    "inc": "[{{% include 'n1' %}}]", "incl": "[{{% include ['zz', 'n1'] %}}]", "ext": "{{% extends 'base' %}}{{% block b %}}E{{% endblock %}}",
+    "imp": "{{% import 'mac' as m %}}{{{{ m.f() }}}}", "frm": "{{% from 'mac' import f %}}{{{{ f() }}}}", "dyn": "<{{% include n %}}>",
+    "ign": "{{% include 'zz' ignore missing %}}|{{% include ['zz', 'yy'] ignore missing %}}", "dir/a": "{{% include 'b' %}}A",
+    "extl": "{{% extends ['zz', 'base'] %}}{{% block b %}}L{{% endblock %}}",
+}
+ENTRY_OPS = ["r:inc", "r:incl", "r:ext", "r:imp", "r:frm", "r:dyn", "r:ign", "r:dir/a", "r:extl",
+             "m:n1", "m:base", "m:mac", "m:dir/b", "d:n1", "d:zz", "a:zz", "d:base"]
+
+
+def run_entry(ctx, jinja2):
+    """include / include-list / extends / extends-list / import / from-import / ignore missing / a join_path override / a Template object as
+    name / overlay(): one long-lived environment must render, after every history of source changes, what a FRESH
+    environment on the same loader renders (auto_reload on)"""
+    import posixpath
+
+    class JEnv(jinja2.Environment):
+        def join_path(self, template, parent):
+            return posixpath.join(posixpath.dirname(parent), template)
+
+    def render(env, name, ver):
+        try:
+            kw = {"n": ["zz", "n1"]} if ver % 2 else {"n": "n1"}
+            return env.get_template(name).render(**kw)
+        except jinja2.TemplateNotFound as e:
+            return "NF:" + type(e).__name__
+        except Exception as e:  # noqa
+            return "X:" + type(e).__name__
+
+    L = ctx.size(3, 4)
+    hist = [list(h) for n in range(1, L + 1) for h in itertools.product(ENTRY_OPS, repeat=n) if h[-1].startswith("r:")]
+    hist = [h for i, h in enumerate(hist) if i % ctx.size(3, 2) == 0]
+    hist += [[ctx.rng.choice(ENTRY_OPS) for _ in range(ctx.rng.randint(4, 9))] for _ in range(ctx.size(250, 2500))]
+    for hi, h in enumerate(hist):
+        size = (-1, 1, 2, 0, 3)[hi % 5]
+        ver = {k: 1 for k in ENTRY_TPL}
+        mapping = {k: t.format(v=1) for k, t in ENTRY_TPL.items() if k != "zz"}
+        loader = jinja2.DictLoader(mapping)
+        env = JEnv(loader=loader, cache_size=size, auto_reload=True)
+        fail = None
+        outs = []
+        for step, o in enumerate(h):
+            kind, name = o.split(":", 1)
+            if kind == "m" or kind == "a":
+                ver[name] += 1
+                mapping[name] = ENTRY_TPL[name].format(v=ver[name])
+            elif kind == "d":
+                mapping.pop(name, None)
+            else:
+                got = render(env, name, step)
+                want = render(JEnv(loader=loader, cache_size=0, auto_reload=True), name, step)
+                outs.append(got)
+                if got != want and not fail:
+                    fail = f"step {step} ({o}): the long-lived environment rendered {got!r}, a fresh one renders {want!r}"
+        case = {"probe": "entry", "cache_size": size, "ops": h}
+        ctx.case(sample=dict(case, rendered=outs) if len(ctx.samples) < 8 and any(x.startswith("m:") for x in h[:-1]) and hi % 7 == 0 else None,
+                 key=("entry", size, tuple(h)) if any(not x.startswith("r:") for x in h[:-1]) else None)
+        ctx.count("entry_points")
+        if fail:
+            ctx.reject(case, fail)
+        else:
+            ctx.validated()
+    # a Template object passed as name is returned as it is; join_path decides the cache key; overlay() gets its own cache of the same kind
+    for size in (-1, 1, 2, 0):
+        mapping = {k: t.format(v=1) for k, t in ENTRY_TPL.items()}
+        env = JEnv(loader=jinja2.DictLoader(mapping), cache_size=size, auto_reload=True)
+        t = env.get_template("n1")
+        problems = []
+        if not (env.get_template(t) is t and env.select_template([t, "inc"]) is t and env.get_or_select_template(t) is t):
+            problems.append("a Template object passed as name was not returned unchanged")
+        a = env.get_template("b", parent="dir/a")
+        if a.render() != "dirBv1" or env.select_template(["b"], parent="dir/a").render() != "dirBv1" \
+                or env.get_or_select_template("b", "dir/a").render() != "dirBv1":
+            problems.append("join_path override ignored by an entry point")
+        if size != 0 and a is not env.get_template("dir/b"):
+            problems.append("the joined name is not the cache key")
+        if env.select_template([jinja2.Undefined(name="u"), "n1"]).render() != "n1v1":
+            problems.append("select_template did not skip an undefined name")
+        ov = env.overlay(trim_blocks=True)
+        if type(ov.cache) is not type(env.cache) or getattr(ov.cache, "capacity", None) != getattr(env.cache, "capacity", None):
+            problems.append(f"overlay() cache kind {type(ov.cache).__name__} differs from {type(env.cache).__name__}")
+        if ov.cache is not None and (ov.cache is env.cache or len(ov.cache) != 0):
+            problems.append("overlay() shares or copies the parent's cache entries")
+        ov3 = env.overlay(cache_size=3)
+        if getattr(ov3.cache, "capacity", None) != 3:
+            problems.append("overlay(cache_size=3) did not create an LRU cache of capacity 3")
+        mapping["n1"] = "n1v2"
+        if ov.get_template("inc").render() != "[n1v2]" or env.get_template("inc").render() != "[n1v2]":
+            problems.append("overlay / parent did not render the current source after a change")
+        ctx.case(key=("entry_probe", size))
+        ctx.count("entry_probe")
+        if problems:
+            ctx.reject({"probe": "entry_probe", "cache_size": size}, "; ".join(problems))
+        else:
+            ctx.validated()
 
 
 def run_race(ctx, jinja2):
@@ -560,6 +661,9 @@ def replay(ctx, data):
     if data.get("kind") != "failing-input" or case is None:
         print("replay: this file names a broken theorem/correspondence, not an input:", data.get("broken"))
         return run(ctx)
+    if case.get("probe") in ("entry", "entry_probe"):
+        run_entry(ctx, jinja2)
+        return
     if case.get("probe") == "race":
         run_race(ctx, jinja2)
         return
